@@ -114,7 +114,11 @@ where
                     prev_rejected[c] = false;
                     o.count("probe_positions_reassigned", 1);
                 }
-                _ => {}
+                _ => {
+                    // a new random stream; everything else the sampler holds must survive
+                    h = h.set_seed(g.u64());
+                    o.count("probe_reseeded_between_steps", 1);
+                }
             }
         }
         let before = tvals(&h.positions);
